@@ -196,6 +196,14 @@ def gen_cases(seed, chunk, n, tier):
             x0 = gen.rand_array(rng, sym, ndim=rng.randint(1, 3), fermi=fermi, static=static, dtype=dtype,
                                 keep=1.0 if kind in ("blocks", "fill") else rng.choice([0.6, 1.0]))
             charge = x0.charge
+            if kind == "fill" and rng.random() < 0.15:
+                # rank 0: the only candidate sector () conserves the charge only if the total charge is the identity
+                ch0 = rng.choice(gen.charge_pool(sym))
+                cls0, kw0 = _cls(sym, fermi, static)
+                x0 = cls0(indices=(), charge=ch0, blocks={}, **kw0,
+                          **({"oddpos": rng.randint(1, 9)} if (fermi and gen.py_parity(sym, ch0)) else {}))
+                charge = ch0
+                meta["rank0"] = True
             odd = bool(fermi and gen.py_parity(sym, charge))
             oddpos = [[int(x0.oddpos[0].label), False]] if odd else []
             okw = {"oddpos": x0.oddpos[0].label} if odd else {}
